@@ -62,7 +62,9 @@ def _coverage(rs):
 
 SPEC = dict(
     level="model_checking",
-    rule="Universe: D1 = doc -> r -> [a, 'x'] plus detached element b, text 'y', comment c, attribute k, fragment f -> [e]; D2 = doc2 -> p:z (namespace urn:z). "
+    rule="(The 'recycle' runs explore the narrow alphabet {setUserData, release, cloneNode, removeChild, importNode} on the same universe to depth 4, thorough 5: a released "
+         "node's storage is handed to the next node of the same kind, so histories annotate, detach, release and create again.) "
+         "Universe: D1 = doc -> r -> [a, 'x'] plus detached element b, text 'y', comment c, attribute k, fragment f -> [e]; D2 = doc2 -> p:z (namespace urn:z). "
          "A state is an operation history replayed from scratch on fresh documents; BFS by depth, the frontier of each depth sharded over the workers; states are "
          "merged on the 128-bit hash of a canonical key of the reached forest = dump through the public getters (type, names, value, parent, first/last child, "
          "previous/next sibling, childNodes, attribute map with ownerElement, ownerDocument, user data) PLUS the hidden fields (DOMNodeImpl::flags and fOwnerNode, "
@@ -106,10 +108,12 @@ SPEC = dict(
     ],
     coverage=_coverage,
     runs=dict(
-        quick=[_bfs("bfs-depth2-full", 2)],
+        quick=[_bfs("bfs-depth2-full", 2),
+               dict(name="recycle-depth4", driver="c13_domx", extra_flags=_FLAGS, args=["--space", "recycle-depth4", "--alphabet", "recycle", "--depth", 4])],
         thorough=[_fix("fixpoint-structural-b", "0,1,2,3,4,8,9", 360),     # doc, r, a, 'x', b, f, e
                   _fix("fixpoint-structural-k", "0,1,2,3,7,8,9", 180),     # doc, r, a, 'x', attribute k, f, e
-                  _bfs("bfs-depth3", 3, reduce_last=True, deadline=840)],
+                  _bfs("bfs-depth3", 3, reduce_last=True, deadline=840),
+                  dict(name="recycle-depth5", driver="c13_domx", extra_flags=_FLAGS, args=["--space", "recycle-depth5", "--alphabet", "recycle", "--depth", 5, "--deadline", 900])],
     ),
     manifest=dict(
         text="Every history of DOM Core calls up to the stated depth (and every reachable forest of the structural sub-alphabet) over the two-document universe was "
